@@ -614,9 +614,49 @@ def transitivity(res, kind, tier):
                                   % (T.show(objs[i][0]), T.show(objs[j][0]), T.show(objs[k][0])),
                                   {"kind": kind, "triple": [objs[i][0], objs[j][0], objs[k][0]]})
                     return
+    # explicit families of near-equal terms (the sampled pool may hold only two of them): the same part unlabelled and
+    # with two different labels; the same leaf with an argument as int / float / bool; operands in the three orders
+    for fam in near_equal_families(kind):
+        fobjs = []
+        for t in fam:
+            try:
+                fobjs.append((t, build(kind, t)))
+            except BaseException:
+                pass
+        for (ta, a), (tb, b), (tc, c) in itertools.permutations(fobjs, 3):
+            res.count("evaluations")
+            res.count("transitions", 3)
+            try:
+                bad = (a == b) and (b == c) and not (a == c)
+            except BaseException as e:
+                res.violation("eq-raises:%s:%s" % (kind, type(e).__name__), "comparing raised %r" % (e,), {"kind": kind, "triple": [ta, tb, tc]})
+                return
+            if bad:
+                res.violation("not-transitive:%s" % kind, "a == b and b == c but a != c: a=%s b=%s c=%s" % (T.show(ta), T.show(tb), T.show(tc)),
+                              {"kind": kind, "triple": [ta, tb, tc]})
+                return
     res.states.add(hash((kind, "triples", n)))
     res.count("validated", n * n * n)
     res.count("nontrivial", sum(1 for i in range(n) for j in range(n) if i != j and eq[i][j]))
+
+
+def near_equal_families(kind):
+    parts = [[p[:-1] + (lab,) for lab in (None, "L", "M", "")] for p in
+             (("map", ("lit", "a"), None, None), ("list", ("lit", 0), None, None), ("mol", ("lit", 1), ("lit", 1), None, None),
+              ("map", None, gen.V_DICT, None), ("list", None, None, None))]
+    conds = [[L("Value", "equal_to", v) for v in (1, 1.0, True)], [L("Value", "in_", v) for v in ([1, 2], [1.0, 2], [True, 2], (1, 2))],
+             [("and", a, b) for a, b in itertools.permutations([LEAVES[0], LEAVES[6], LEAVES[19]], 2)]]
+    if kind == "cond":
+        return conds
+    if kind == "part":
+        return parts
+    if kind == "path":
+        return [[P((("prim", "x"), p)) for p in fam] for fam in parts] + [[P((("prim", v),)) for v in (1, 1.0, True)]]
+    if kind == "rule":
+        return [[T.rule(P((p,)), LEAVES[0]) for p in fam] for fam in parts] + [[T.rule(P((("prim", "a"),)), c) for c in fam] for fam in conds]
+    if kind == "schema":
+        return [[("schema", (T.rule(P((p,)), LEAVES[0]),)) for p in fam] for fam in parts]
+    return []
 
 
 def check_triple(res, kind, triple):
